@@ -1,6 +1,6 @@
 """C04 — the default fit is the global bounded weighted least-squares optimum."""
 import numpy as np
-from common import F, rs, vs, ms, dyadic, close, call
+from common import F, rs, vs, ms, dyadic, close, call, as_given
 from fitlib import gen_wellscaled, gen_target, certify_rows, fsqrt, K_text
 import exactqp
 
@@ -15,11 +15,16 @@ def drain():
 def run(R):
     import dreye
     from dreye.api.optimize.lsq_linear import lsq_linear
-    nsys = 24 if R.tier == "quick" else 300
+    nsys = 28 if R.tier == "quick" else 340
     R.rule = ("well-scaled systems (1-5 receptors x 1-8 sources; extent 1-100, bounds in [0.05,10] or default (0,inf), cond<=1e3), "
               "K none/scalar/vector/matrix, baseline 0/scalar/vector, per-receptor and per-sample weights; targets inside, on the "
               "boundary, at vertices, outside and below the baseline; default settings and a high-accuracy solver through the "
-              "keyword pass-through; via lsq_linear and via ReceptorEstimator.fit. For every row the exact optimum is computed in "
+              "keyword pass-through; via lsq_linear and via ReceptorEstimator.fit; the performance option batch_size drawn from "
+              "{1, 2, 3, 4 (padded last batch), 'full'} (rows of a jointly solved batch are independent: theorem "
+              "ExtrasA.stacked_objective_sum, so every row is still certified on its own, with per-source bounds that differ "
+              "between sources), six targets per call or one single-row call; targets, per-sample weights, bounds and the "
+              "capture matrix handed in as C-ordered / Fortran-ordered / strided arrays or lists (the model sees values only; "
+              "arguments must be unchanged afterwards). For every row the exact optimum is computed in "
               "Q from the active set suggested by the answer and accepted only by the Lean-verified exact KKT check (theorem "
               "kkt_global_min => optimal against every in-bound point); otherwise a Frank-Wolfe gap certificate. Non-trivial: a "
               "bound active at the optimum, or target outside the gamut, or under-determined.")
@@ -30,8 +35,15 @@ def run(R):
         S = gen_wellscaled(rng)
         nf, ns = S["nf"], S["ns"]
         wk = str(rng.choice(["none", "vector", "per_sample"]))
-        nrow = len(kinds)
         B = np.array([gen_target(rng, S, kd) for kd in kinds])
+        # degenerate shape: a call with one single target row (any of the classes); drawn from its own stream so that the
+        # systems / targets of the six-row calls are the same as before
+        rng2 = R.rng(2, si)
+        kinds_s = list(kinds)
+        if rng2.random() < 0.15:
+            j = int(rng2.integers(len(kinds)))
+            B = B[j:j + 1].copy(); kinds_s = [kinds[j]]
+        nrow = len(kinds_s)
         if wk == "none":
             W = None; Wrows = np.ones((nrow, nf))
         elif wk == "vector":
@@ -44,32 +56,57 @@ def run(R):
             if not R.want(k):
                 continue
             kw = dict(HIGH) if mode == "high" else {}
+            # batch size is a pure performance setting (C05); rows solved jointly are certified row by row
+            rngm = R.rng(3, si, 0 if mode == "default" else 1)
+            bs = [1, 1, 2, 3, 4, "full"][int(rngm.integers(6))]
+            if bs != 1:
+                kw["batch_size"] = bs
+            # the same values in another representation (implementation side only)
+            Bg = as_given(rngm, B, R, "B")
+            Wg = W if W is None else as_given(rngm, W, R, "W")
+            if via == "lsq_linear":
+                Ag = as_given(rngm, S["A"], R, "A"); lbg = as_given(rngm, S["lb"], R, "lb"); ubg = as_given(rngm, S["ub"], R, "ub")
+            else:
+                Ag, lbg, ubg = S["A"], S["lb"], S["ub"]
             drain()
             if via.startswith("estimator"):
                 filt = np.hstack([np.zeros((nf, 1)), S["A"], np.zeros((nf, 1))])
                 src = np.hstack([np.zeros((ns, 1)), np.eye(ns), np.zeros((ns, 1))])
 
-                def impl():
+                def impl(*watched):
                     est = dreye.ReceptorEstimator(filt, domain=1.0, K=(1.0 if S["K"] is None else S["K"]), baseline=S["baseline"],
-                                                  w=(1.0 if W is None else W), sources=src, lb=S["lb"], ub=S["ub"])
+                                                  w=(1.0 if Wg is None else Wg), sources=src, lb=lbg, ub=ubg)
                     if via == "estimator":
-                        return est.fit(B, **kw)
+                        return est.fit(Bg, **kw)
                     # history: other targets with per-sample weights were registered (and fitted) before
                     est.register_targets(B[::-1] * 0.5 + 1.0, W=np.linspace(0.5, 2.0, B.size).reshape(B.shape))
                     est.fit(**kw)
-                    est.register_targets(B)
+                    est.register_targets(Bg)
                     est.fit(**kw)
                     return est.X, est.B
             else:
-                def impl():
-                    return lsq_linear(S["A"], B, lb=S["lb"], ub=S["ub"], W=W, K=S["K"], baseline=S["baseline"], return_pred=True, **kw)
-            st, out = call(impl)
-            statuses = [e.get("status") for e in drain() if e["event"] == "solve"]
+                def impl(*watched):
+                    return lsq_linear(Ag, Bg, lb=lbg, ub=ubg, W=Wg, K=S["K"], baseline=S["baseline"], return_pred=True, **kw)
+            # frame condition: the arrays handed to the fit are unchanged afterwards (call() snapshots its array arguments)
+            st, out = call(impl, *[a for a in (Ag, Bg, lbg, ubg, Wg, S["K"], S["baseline"], filt, src) if isinstance(a, np.ndarray)]) \
+                if via.startswith("estimator") else call(impl, *[a for a in (Ag, Bg, lbg, ubg, Wg, S["K"], S["baseline"]) if isinstance(a, np.ndarray)])
+            # solver status per row: every 'batch' event names the rows written by the preceding solve (later fits overwrite earlier ones)
+            statuses = [None] * nrow; last = None
+            for e in drain():
+                if e["event"] == "solve":
+                    last = e.get("status")
+                elif e["event"] == "batch":
+                    for i in range(int(e["start"]), min(int(e["stop"]), nrow)):
+                        statuses[i] = last
             c = dict(k=k, via=via, mode=mode, nf=nf, ns=ns, A=S["A"], K=S["K"], K_kind=S["K_kind"], baseline=S["baseline"],
-                     baseline_kind=S["baseline_kind"], lb=S["lb"], ub=S["ub"], W=W, W_kind=wk, B=B, target_kinds=kinds, cond=S["cond"])
+                     baseline_kind=S["baseline_kind"], lb=S["lb"], ub=S["ub"], W=W, W_kind=wk, B=B, target_kinds=kinds_s, cond=S["cond"],
+                     batch_size=bs, n_rows=nrow)
             for key in ("via", "mode", "K_kind", "baseline_kind", "W_kind"):
                 R.count("%s:%s" % (key, c[key]))
             R.count("ub:" + S["ub_kind"]); R.count("lb:" + S["lb_kind"])
+            R.count("batch_size:%s" % bs); R.count("rows_per_call:%d" % nrow)
+            nbatch = nrow if bs == "full" else bs
+            R.count("joint-batch-with-unequal-bounds:%s" % bool(min(nbatch, nrow) >= 2 and (len(set(S["lb"].tolist())) > 1 or len(set(S["ub"].tolist())) > 1)))
             R.count("shape:%s" % ("under" if ns > nf else ("exact" if ns == nf else "over")))
             if st == "runtime" and mode == "high":
                 R.count("high-accuracy-solver-did-not-converge"); R.case(c, None)
@@ -82,14 +119,14 @@ def run(R):
                     Wi = W if (W is None or np.ndim(W) == 1) else W[i:i + 1]
                     s1, o1 = call(lsq_linear, S["A"], B[i:i + 1], lb=S["lb"], ub=S["ub"], W=Wi, K=S["K"], baseline=S["baseline"], return_pred=True, **kw)
                     if s1 != "ok":
-                        failing.append(kinds[i])
+                        failing.append(kinds_s[i])
                 R.failB(dict(c, impl_error=out, failing_target_kinds=failing), "fit raised %s (target kinds that fail alone: %s)" % (out, sorted(set(failing))),
                         "C04:raises:%s:%s" % (st, ",".join(sorted(set(failing))) or "joint"))
                 continue
             X, Bp = np.asarray(out[0]), np.asarray(out[1])
             for i in range(nrow):
-                rows.append(dict(case=c, row=i, kind=kinds[i], n=ns, K=S["K"], A=S["A"], baseline=S["baseline"], w=Wrows[i], b=B[i], lb=S["lb"], ub=S["ub"],
-                                 xhat=X[i], bpred=Bp[i], mode=mode, status=statuses[i] if i < len(statuses) else None, S=S))
+                rows.append(dict(case=c, row=i, kind=kinds_s[i], n=ns, K=S["K"], A=S["A"], baseline=S["baseline"], w=Wrows[i], b=B[i], lb=S["lb"], ub=S["ub"],
+                                 xhat=X[i], bpred=Bp[i], mode=mode, status=statuses[i], S=S))
     certify_rows(R, "c4", rows)
     seen_case = set()
     for r in rows:
